@@ -37,6 +37,7 @@ from static_frame.core.util import UFunc
 from static_frame.core.util import ufunc_set_iter
 from static_frame.core.util import INT_TYPES
 from static_frame.core.util import NameType
+from static_frame.core.util import immutable_new
 from static_frame.core.util import is_dtype_specifier
 from static_frame.core.util import is_mapping
 
@@ -186,7 +187,11 @@ def pandas_to_numpy(
         else:
             array = container.values.copy()
 
-    array.flags.writeable = False
+    if own_data:
+        array.flags.writeable = False
+    else:
+        # a new array, which might be a view of a new buffer (as from to_numpy()): freeze that too
+        immutable_new(array)
     return array
 
 
